@@ -36,11 +36,14 @@ impl<S> Client<S> {
     pub uninterp spec fn tls(&self) -> bool;
     pub uninterp spec fn uid(&self) -> Option<u16>;
     pub uninterp spec fn chans(&self) -> Map<Seq<char>, u16>;
+    /// the server's GCC data has been received (after connect) / it announced RDP 5+
+    pub uninterp spec fn server_known(&self) -> bool;
+    pub uninterp spec fn v5plus(&self) -> bool;
     /// after mcs::Client::connect: a user id >= 1001 is attached and the global channel is joined
     pub open spec fn connected(&self) -> bool {
         self.uid() is Some && self.uid()->Some_0 >= 1001 && self.chans().contains_key("global"@)
     }
-    pub open spec fn same_session(&self, o: &Self) -> bool { self.uid() == o.uid() && self.chans() == o.chans() && self.tls() == o.tls() }
+    pub open spec fn same_session(&self, o: &Self) -> bool { self.uid() == o.uid() && self.chans() == o.chans() && self.tls() == o.tls() && self.server_known() == o.server_known() && self.v5plus() == o.v5plus() }
 }
 ''', mod="mcs", name="mcs_opaque", trusted="mcs::Client<S> as an opaque type (its fields are irrelevant above the MCS layer)")
 
@@ -59,3 +62,5 @@ MCS_READ = dict(
         (None, "channel", "r is Ok ==> old(self).chans().contains_key(r->Ok_0.0@)"),
         (None, "fast-path-is-global", "r is Ok && r->Ok_0.1 is FastPath ==> r->Ok_0.0@ == \"global\"@"),
     ])
+
+MCS_V5 = dict(requires=["self.server_known()"], ensures=["r == self.v5plus()"])
